@@ -32,8 +32,23 @@ import (
 )
 
 type caseSpec struct {
-	kind string // A | B | C
+	kind string // A | B | C | D
 	idx  int
+}
+
+// raceMode: the race-detector pass (VERIF_RACE=1) runs only the concurrent workloads.
+var raceMode = os.Getenv("VERIF_RACE") == "1"
+
+// noZeroWaitUnderRace: with a dial wait of 0 the server selects on an already expired timer channel.
+// go1.25.7 runs such a timer inline using ONE race-detector context per synctest bubble; two
+// goroutines of a bubble doing that at the same time crash ThreadSanitizer itself (SIGSEGV in
+// __tsan::SlotLock, seen with this harness). A toolchain limitation, not a libp2p defect: under
+// -race the concurrent workloads therefore never configure a zero wait.
+func noZeroWaitUnderRace(d time.Duration) time.Duration {
+	if raceMode && d >= 0 && d < 100*time.Millisecond {
+		return 300 * time.Millisecond
+	}
+	return d
 }
 
 func (c caseSpec) id() string { return fmt.Sprintf("%s/%d", c.kind, c.idx) }
@@ -82,7 +97,7 @@ func containsColon(s string) bool {
 func TestC16(t *testing.T) {
 	r := run.New(t, "C16", "exploration")
 	defer r.Finish()
-	race := os.Getenv("VERIF_RACE") == "1"
+	race := raceMode
 	selfCheckPopulation(t)
 
 	r.Rule("one evaluation = one request driven against a fresh-per-session REAL autonatv2 server inside a synctest bubble and judged post hoc " +
@@ -105,11 +120,20 @@ func TestC16(t *testing.T) {
 	)
 
 	var cases []caseSpec
-	nA, nB, nC := r.Pick(400, 4000), r.Pick(400, 4000), r.Pick(300, 3000)
+	nA, nB, nC := r.Pick(600, 12000), r.Pick(600, 12000), r.Pick(400, 8000)
 	if race {
-		nA, nB, nC = 0, r.Pick(40, 200), r.Pick(80, 400)
+		nA, nB, nC = 0, r.Pick(300, 1500), r.Pick(600, 3000)
 	}
-	for i := 0; i < max(nA, nB, nC); i++ { // interleave kinds so that workers stay balanced
+	edgeSpecs := enumerateEdgeScripts(r.Quick())
+	nD := len(edgeSpecs)
+	if race {
+		nD = 0
+	}
+	r.Extra("edge_scripts_enumerated", nD)
+	for i := 0; i < max(nA, nB, nC, nD); i++ { // interleave kinds so that workers stay balanced
+		if i < nD {
+			cases = append(cases, caseSpec{"D", i})
+		}
 		if i < nA {
 			cases = append(cases, caseSpec{"A", i})
 		}
@@ -140,7 +164,7 @@ func TestC16(t *testing.T) {
 						if !r.Want(c.id()) {
 							continue
 						}
-						st := runCase(r, c)
+						st := runCase(r, c, edgeSpecs)
 						mu.Lock()
 						for k, v := range st {
 							total[k] += v
@@ -200,15 +224,19 @@ func TestC16(t *testing.T) {
 	req("dials_with_several_requests_of_peer_in_service", 20, 200)
 	// valid requests must be served: a server that rejects (almost) everything satisfies every upper
 	// bound of the statement vacuously; such a run is inconclusive, not a pass.
-	r.Require("under_limit_served", int(math.Ceil(0.98*float64(total["under_limit_requests"]))))
-	r.Require("under_limit_requests", r.Pick(1000, 10000)/map[bool]int{false: 1, true: 10}[race])
+	for _, k := range []string{"A", "B", "C", "D"} {
+		if total["sessions_"+k] > 0 {
+			r.Require("under_limit_served_"+k, int(math.Ceil(0.995*float64(total["under_limit_requests_"+k]))))
+			r.Require("under_limit_requests_"+k, r.Pick(1000, 10000)/map[bool]int{false: 1, true: 10}[race])
+		}
+	}
 	if !race {
 		r.Require("valid_requests_answered_OK", int(math.Ceil(0.95*float64(total["valid_requests"]))))
 	}
 }
 
 // runCase runs one session inside the current bubble, judges it and reports.
-func runCase(r *run.R, c caseSpec) sessionStats {
+func runCase(r *run.R, c caseSpec, edgeSpecs []edgeScript) sessionStats {
 	rng := r.Rand(uint64(c.kind[0]), uint64(c.idx))
 	var s *session
 	var err error
@@ -222,6 +250,8 @@ func runCase(r *run.R, c caseSpec) sessionStats {
 		s, err = runArrivals(rng, extra)
 	case "C":
 		s, err = runConcurrent(rng)
+	case "D":
+		s, err = runEdgeScript(rng, edgeSpecs[c.idx], extra)
 	}
 	if err != nil {
 		r.Inconclusive(c.id(), "could not start the server: "+err.Error())
@@ -232,6 +262,8 @@ func runCase(r *run.R, c caseSpec) sessionStats {
 		st[k] += v
 	}
 	st.add("sessions_"+c.kind, 1)
+	st.add("under_limit_requests_"+c.kind, st["under_limit_requests"])
+	st.add("under_limit_served_"+c.kind, st["under_limit_served"])
 	r.Eval(len(views))
 
 	// workload-specific observations
@@ -251,6 +283,8 @@ func runCase(r *run.R, c caseSpec) sessionStats {
 		nontrivial = st["rejected_window_full"]+st["rejected_dial_data_window_full"] > 0 && st["edge_probe_accepted_at_exact_expiry"]+st["edge_probe_accepted_after_expiry"] > 0
 	case "C":
 		nontrivial = st["sessions_reaching_concurrency_limit"] > 0 && st["rejected_at_concurrency_limit"] > 0
+	case "D":
+		nontrivial = st["rejected_window_full"]+st["rejected_dial_data_window_full"] > 0
 	}
 	if nontrivial {
 		r.Nontrivial(fmt.Sprintf("%s/%d/%d", c.id(), len(views), len(s.dials)))
@@ -344,7 +378,7 @@ func runArrivals(rng *rand.Rand, extra sessionStats) (*session, error) {
 	}
 	cfg := &sessCfg{RPM: small(3, 3, 4, 6), PerPeer: small(1, 2, 2, 3), DialData: small(1, 1, 2), MaxConc: pick(rng, []int{1, 2, 2, 3}),
 		Policy:   pick(rng, []string{"default", "default", "default", "default", "default", "default", "default", "default", "always", "never"}),
-		DialWait: pick(rng, []time.Duration{0, 0, -1, 500 * time.Millisecond}), BadPort: 9}
+		DialWait: noZeroWaitUnderRace(pick(rng, []time.Duration{0, 0, -1, 500 * time.Millisecond})), BadPort: 9}
 	cfg.Peers = genPeers(rng, 5, false)
 	s, err := newSession(cfg)
 	if err != nil {
@@ -408,38 +442,63 @@ func runArrivals(rng *rand.Rand, extra sessionStats) (*session, error) {
 			if rng.IntN(2) == 0 {
 				gap = 0
 			}
+			stagger := pick(rng, []time.Duration{0, 0, 1, time.Millisecond, 3 * time.Millisecond})
+			bp := rng.IntN(len(cfg.Peers))
 			for k := 2 + rng.IntN(4); k > 0; k-- {
-				batch = append(batch, simpleRequest(rng, cfg, rng.IntN(len(cfg.Peers)), pick(rng, []string{"same", "same", "foreign"})))
+				if rng.IntN(2) == 0 {
+					bp = rng.IntN(len(cfg.Peers))
+				}
+				pl := simpleRequest(rng, cfg, bp, pick(rng, []string{"same", "same", "foreign"}))
+				pl.Stagger = stagger
+				batch = append(batch, pl)
 			}
 		default: // probe a window edge: base accept + 60 s + delta
+			// base: one of the accepts that fill the window (mostly the oldest one, the limit-th most
+			// recent); at base+60s+delta a burst tries to take more slots than can have been freed.
 			var base time.Duration = -1
-			p := -1
-			switch rng.IntN(3) {
+			p, limit := -1, 0
+			nth := func(l []acc, lim int) time.Duration {
+				k := lim
+				if rng.IntN(5) < 2 {
+					k = 1 + rng.IntN(lim)
+				}
+				return l[len(l)-k].t
+			}
+			kind := rng.IntN(3)
+			switch kind {
 			case 0: // global window
 				if cfg.RPM < big && len(accG) >= cfg.RPM {
-					base, p = accG[len(accG)-cfg.RPM].t, leastLoaded(now)
+					base, p, limit = nth(accG, cfg.RPM), leastLoaded(now), cfg.RPM
 					class = "same"
 				}
 			case 1: // one peer's window
 				p0 := rng.IntN(len(cfg.Peers))
 				if l := perPeerAcc(p0); cfg.PerPeer < big && len(l) >= cfg.PerPeer {
-					base, p = l[len(l)-cfg.PerPeer].t, p0
+					base, p, limit = nth(l, cfg.PerPeer), p0, cfg.PerPeer
 					class = "same"
 				}
 			case 2: // dial-data window
 				if cfg.DialData < big && len(accD) >= cfg.DialData {
-					base, p = accD[len(accD)-cfg.DialData].t, leastLoaded(now)
+					base, p, limit = nth(accD, cfg.DialData), leastLoaded(now), cfg.DialData
 					class = "foreign"
 				}
 			}
 			dl := pick(rng, edgeDeltas)
 			if base >= 0 && base+window+dl.d > now {
 				gap = base + window + dl.d - now
-				pl := simpleRequest(rng, cfg, p, class)
-				batch = append(batch, pl)
+				batch = append(batch, simpleRequest(rng, cfg, p, class))
 				pr = &probe{delta: dl.name, base: base}
-				if rng.IntN(3) == 0 { // two at once: only one slot can have been freed
-					batch = append(batch, simpleRequest(rng, cfg, p, class))
+				if rng.IntN(2) == 0 { // a burst: at most the freed slots may be taken
+					stagger := pick(rng, []time.Duration{0, 1, 1, time.Microsecond})
+					for k := 1 + rng.IntN(min(limit, 3)); k > 0; k-- {
+						q := p
+						if kind != 1 && rng.IntN(2) == 0 {
+							q = rng.IntN(len(cfg.Peers))
+						}
+						pl := simpleRequest(rng, cfg, q, class)
+						pl.Stagger = stagger
+						batch = append(batch, pl)
+					}
 				}
 			} else {
 				batch = append(batch, simpleRequest(rng, cfg, rng.IntN(len(cfg.Peers)), class))
@@ -456,7 +515,10 @@ func runArrivals(rng *rand.Rand, extra sessionStats) (*session, error) {
 		}
 		sleepV(gap)
 		var launched []*request
-		for _, pl := range batch {
+		for i, pl := range batch {
+			if i > 0 {
+				sleepV(pl.Stagger)
+			}
 			launched = append(launched, s.launch(pl))
 		}
 		synctest.Wait()
@@ -511,7 +573,7 @@ func (rq *request) ddrSoFar() bool {
 func runConcurrent(rng *rand.Rand) (*session, error) {
 	big := 1 << 20
 	cfg := &sessCfg{RPM: big, PerPeer: big, DialData: big, MaxConc: 1 + rng.IntN(5),
-		Policy: "default", DialWait: pick(rng, []time.Duration{0, 0, -1}), BadPort: 9}
+		Policy: "default", DialWait: noZeroWaitUnderRace(pick(rng, []time.Duration{0, 0, -1})), BadPort: 9}
 	cfg.Peers = genPeers(rng, 3, false)
 	s, err := newSession(cfg)
 	if err != nil {
@@ -581,5 +643,118 @@ func runConcurrent(rng *rand.Rand) (*session, error) {
 		sleepV(time.Duration(rng.IntN(5000)) * time.Millisecond)
 	}
 	s.close()
+	return s, nil
+}
+
+// ---- workload D: enumerated window-edge scripts ----------------------------------------------------
+//
+// One limit (global / per-peer / dial-data) is set to L in {1,2,3}, the others are out of the way.
+// L requests fill the window at instants separated by every combination of the offsets; then, at
+// (k-th accept) + 60 s + delta, a burst of L+1 requests arrives. Optionally another peer's request
+// lands between the first expiry and the burst (so that the limiter's lazy clean-up has or has not
+// run before the burst).
+
+type edgeScript struct {
+	Kind    string          `json:"kind"` // global | peer | dialdata
+	L       int             `json:"limit"`
+	Offsets []time.Duration `json:"offsets"`
+	K       int             `json:"base_accept"` // 1 = the oldest
+	Delta   time.Duration   `json:"delta"`
+	Quiet   bool            `json:"quiet"`
+}
+
+func enumerateEdgeScripts(quick bool) []edgeScript {
+	offs := []time.Duration{0, 1, time.Millisecond, time.Second, 20 * time.Second}
+	if !quick {
+		offs = []time.Duration{0, 1, time.Millisecond, 999 * time.Millisecond, time.Second, 20 * time.Second, 59999 * time.Millisecond}
+	}
+	var out []edgeScript
+	for _, kind := range []string{"global", "peer", "dialdata"} {
+		for L := 1; L <= 3; L++ {
+			var combos [][]time.Duration
+			var rec func(cur []time.Duration)
+			rec = func(cur []time.Duration) {
+				if len(cur) == L-1 {
+					combos = append(combos, append([]time.Duration(nil), cur...))
+					return
+				}
+				for _, o := range offs {
+					rec(append(cur, o))
+				}
+			}
+			rec(nil)
+			for _, c := range combos {
+				for k := 1; k <= L; k++ {
+					for _, d := range edgeDeltas {
+						for _, q := range []bool{true, false} {
+							out = append(out, edgeScript{Kind: kind, L: L, Offsets: c, K: k, Delta: d.d, Quiet: q})
+						}
+					}
+				}
+			}
+		}
+	}
+	return out
+}
+
+func runEdgeScript(rng *rand.Rand, e edgeScript, extra sessionStats) (*session, error) {
+	big := 1 << 20
+	cfg := &sessCfg{RPM: big, PerPeer: big, DialData: big, MaxConc: 5, Policy: "default", DialWait: 0, BadPort: 9}
+	class := "same"
+	switch e.Kind {
+	case "global":
+		cfg.RPM = e.L
+	case "peer":
+		cfg.PerPeer = e.L
+	case "dialdata":
+		cfg.DialData = e.L
+		class = "foreign"
+	}
+	cfg.Peers = genPeers(rng, 5, false)
+	s, err := newSession(cfg)
+	if err != nil {
+		return nil, err
+	}
+	peerFor := func(i int) int {
+		if e.Kind == "peer" {
+			return 0
+		}
+		return i % len(cfg.Peers)
+	}
+	// fill the window
+	times := make([]time.Duration, e.L)
+	for i := 0; i < e.L; i++ {
+		if i > 0 {
+			sleepV(e.Offsets[i-1])
+		}
+		times[i] = s.now()
+		s.launch(simpleRequest(rng, cfg, peerFor(i), class))
+		synctest.Wait()
+	}
+	// one more right away: the window is full
+	sleepV(1)
+	s.launch(simpleRequest(rng, cfg, peerFor(e.L), class))
+	synctest.Wait()
+	target := times[e.K-1] + window + e.Delta
+	if !e.Quiet {
+		// somebody else's request after the first expiry and before the burst
+		if mid := (times[0] + window + target) / 2; mid > s.now() && mid < target {
+			sleepV(mid - s.now())
+			other := 1 + rng.IntN(len(cfg.Peers)-1)
+			s.launch(simpleRequest(rng, cfg, other, "same"))
+			synctest.Wait()
+			extra.add("edge_script_with_interloper", 1)
+		}
+	}
+	sleepV(target - s.now())
+	for i := 0; i <= e.L; i++ {
+		if i > 0 {
+			sleepV(1)
+		}
+		s.launch(simpleRequest(rng, cfg, peerFor(e.L+1+i), class))
+		synctest.Wait()
+	}
+	s.close()
+	extra.add("edge_script/"+e.Kind, 1)
 	return s, nil
 }
